@@ -608,8 +608,22 @@ def run(ck, ctx):
     bracketing_rules(ck, "R18.5", I)
 
 
-def _is_meta(n, grid):
-    return n.op == "Attr" and n.attr == "meta" and n.args[0] is grid
+def _is_meta(n, grid, depth=0):
+    if n.op == "Attr" and n.attr == "meta" and n.args[0] is grid:
+        return True
+    if depth > 3:
+        return False
+    # a copy of it: dict(meta), {**meta}, {k: v for k, v in meta.items()} (no filter, key and value passed through)
+    if n.op == "Call" and n.args and n.args[0].op == "Ext" and n.args[0].attr == "builtins.dict" and len(n.args) == 2:
+        return _is_meta(n.args[1], grid, depth + 1)
+    if n.op == "DictComp" and len(n.args) == 3:
+        it, k, v = n.args
+        src = it.args[0] if (it.op == "MCall" and it.attr[0] == "items" and len(it.args) == 1) or it.op == "DictItems" \
+            else None
+        return src is not None and _is_meta(src, grid, depth + 1) and k.op == "Elem" and k.attr == 0 and \
+            v.op == "Elem" and v.attr == 1 and k.args[0] is v.args[0] and k.args[0].op == "IterElem" and \
+            k.args[0].args[0] is it
+    return False
 
 
 def _is_meta_items(n, grid):
